@@ -47,8 +47,10 @@ class Operator:
     @property
     def typed_action_call(self) -> str:
         if self.problem_objects is not None:
+            # an action may be called with a constant of the domain as one of its arguments.
+            typed_objects = {**self.problem_objects, **self.domain.constants}
             signature_str_items = [
-                f"{parameter_name} - {str(self.problem_objects[parameter_name].type.name)}"
+                f"{parameter_name} - {str(typed_objects[parameter_name].type.name)}"
                 for parameter_name in self.grounded_call_objects
             ]
         else:
